@@ -6,6 +6,8 @@ import (
 	"go/types"
 	"regexp"
 	"strings"
+
+	"golibcheck/internal/paths"
 )
 
 var ringEndRe = regexp.MustCompile(`(^|\.)header\.(link_prev|link_next|link\.prev|link\.next)$`)
@@ -239,4 +241,63 @@ func recvTypeOf(fn *types.Func) types.Type {
 		return nil
 	}
 	return sig.Recv().Type()
+}
+
+// checkClear: emptying a collection leaves it with no elements counted. Every path through the
+// clearing method (clear/Clear, helpers followed) that empties or replaces the bucket table also sets
+// the element count to zero; a way out that has dropped the buckets and kept the count leaves Size()
+// reporting elements that are gone.
+func (h *hmapType) checkClear() {
+	for _, fi := range h.p.MethodsOf(h.t) {
+		if fi.Decl.Body == nil || (fi.Obj.Name() != "clear" && fi.Obj.Name() != "Clear") {
+			continue
+		}
+		info := fi.Pkg.TypesInfo
+		rn := recvName(fi)
+		norm := func(e ast.Expr) string {
+			return strings.ReplaceAll(stripSpaces(types.ExprString(e)), rn+".", "")
+		}
+		in := newInliner(h.p, fi, nil)
+		ps, over := paths.Enumerate(fi.Decl.Body, paths.Config{Info: info, Inline: in.Body, Expand: in.Expand,
+			Classify: func(n ast.Node) []paths.Event {
+				var out []paths.Event
+				if as, ok := n.(*ast.AssignStmt); ok && len(as.Lhs) == len(as.Rhs) {
+					for i, l := range as.Lhs {
+						ls, rs := norm(l), norm(as.Rhs[i])
+						switch {
+						case ls == "count" && rs == "0":
+							out = append(out, paths.Event{Kind: "ZERO", Pos: as.Pos()})
+						case ls == "table":
+							out = append(out, paths.Event{Kind: "DROP", Pos: as.Pos()})
+						default:
+							if ix, ok := ast.Unparen(l).(*ast.IndexExpr); ok && rs == "nil" {
+								if t := info.TypeOf(ix.X); t != nil {
+									if _, isSl := t.Underlying().(*types.Slice); isSl {
+										out = append(out, paths.Event{Kind: "DROP", Pos: as.Pos()})
+									}
+								}
+							}
+						}
+					}
+				}
+				return out
+			}})
+		if over {
+			continue
+		}
+		bad := ""
+		n := 0
+		for _, pa := range ps {
+			if pa.Has("PANIC") || !pa.Has("DROP") {
+				continue
+			}
+			n++
+			if !pa.Has("ZERO") {
+				bad = "a path empties or replaces the bucket table and returns without setting the count to zero (" + pa.String() + "): Size() keeps reporting the elements that are gone"
+			}
+		}
+		if n > 0 {
+			h.r.Check(bad == "", h.pre+".clear", h.name+"."+fi.Obj.Name(), h.p.Pos(fi.Decl.Pos()), "buckets dropped and count zeroed together", bad)
+		}
+	}
 }
